@@ -106,6 +106,20 @@ fn main() {
     if !run(&jwt, &disc, &base()) { return Err("well-formed SD-JWT credential rejected".into()); }
     if run(&issuer_jwt(ISSUER, "", b"bad").0, &disc, &base()) { return Err("invalid issuer signature accepted".into()); }
     if run(&issuer_jwt("did:example:other", "", b"good").0, &issuer_jwt("did:example:other", "", b"good").1, &base()) { return Err("issuer != kid DID accepted".into()); }
+    // two trusted issuers: a token signed with a key of B (kid of B) that names A as issuer must be rejected
+    {
+      let other = "did:example:other";
+      let claims = format!(r#"{{"iss":"{ISSUER}","nbf":1500,"sub":"did:example:subject","vc":{{"@context":"https://www.w3.org/2018/credentials/v1","type":["VerifiableCredential"],"credentialSubject":{{"name":"x","degree":"BSc"}}}}}}"#);
+      let mut enc = SdObjectEncoder::new(&claims).unwrap();
+      let d = enc.conceal("/vc/credentialSubject/degree", None).unwrap();
+      enc.add_sd_alg_property();
+      let token = jws(&format!(r#"{{"alg":"EdDSA","kid":"{other}#k"}}"#), &enc.try_to_string().unwrap(), b"good");
+      let sd = SdJwt::new(token, vec![d.to_string()], None);
+      let trusted = [doc(ISSUER), doc(other)];
+      if validator().verify_signature::<CoreDocument, Object>(&sd, &trusted, &JwsVerificationOptions::default()).is_ok() {
+        return Err(format!("SD-JWT signed with a key of {other} accepted as issued by {ISSUER} (both trusted)"));
+      }
+    }
     let n = |x: Option<&str>| { let mut v = JwsVerificationOptions::default(); if let Some(x) = x { v = v.nonce(x); } base().verification_options(v) };
     if run(&jwt, &disc, &n(Some("n1"))) { return Err("token without nonce accepted although a nonce is required".into()); }
     let (jn, dn) = issuer_jwt(ISSUER, r#","nonce":"n1""#, b"good");
